@@ -152,6 +152,11 @@ Init ==
     /\ crashes = 0 /\ spurious = 0
 
 (* ------------------------------------------------------------------ raft, abstracted *)
+\* The actions of this section are written without regard to the client; Next takes them only in states where
+\* the last answer has been read (Quiet), so that an answer is not carried through every later interleaving, and
+\* FairSpec is fair to the actions themselves, so that a client that keeps asking cannot starve raft.
+Quiet == ans = NoAns
+
 \* a follower receives the next entry from the leader it follows
 Replicate(n) ==
     /\ alive[n] /\ role[n] = "follower" /\ leaderOf[n] # None /\ leaderOf[n] = cur
@@ -167,11 +172,16 @@ Apply(n) ==
     /\ UNCHANGED <<log, net, req, ans>>
 
 \* heartbeat timeout: the follower forgets its leader (runFollower: setLeader(""))
-LoseLeader(n) ==
-    /\ alive[n] /\ role[n] = "follower" /\ leaderOf[n] # None
-    /\ LET l == leaderOf[n]  fine == alive[l] /\ role[l] = "leader" /\ l = cur IN
-         IF fine THEN spurious < MaxSpurious /\ spurious' = spurious + 1
-                 ELSE spurious' = spurious
+LeaderFine(l) == alive[l] /\ role[l] = "leader" /\ l = cur
+\* ... because the leader is gone or deposed
+LoseStaleLeader(n) ==
+    /\ alive[n] /\ role[n] = "follower" /\ leaderOf[n] # None /\ ~ LeaderFine(leaderOf[n])
+    /\ leaderOf' = [leaderOf EXCEPT ![n] = None]
+    /\ UNCHANGED <<log, have, applied, alive, role, cur, req, ans, crashes, spurious>>
+\* ... although the leader is fine (machine load)
+LoseLeaderSpuriously(n) ==
+    /\ alive[n] /\ role[n] = "follower" /\ leaderOf[n] # None /\ LeaderFine(leaderOf[n])
+    /\ spurious < MaxSpurious /\ spurious' = spurious + 1
     /\ leaderOf' = [leaderOf EXCEPT ![n] = None]
     /\ UNCHANGED <<log, have, applied, alive, role, cur, req, ans, crashes>>
 
@@ -182,12 +192,17 @@ BecomeCandidate(n) ==
     /\ UNCHANGED <<log, have, applied, alive, leaderOf, cur, req, ans, crashes, spurious>>
 
 \* a candidate that stores every committed entry wins when a majority is up
+CanWin(n) == alive[n] /\ role[n] = "candidate" /\ have[n] = Len(log) /\ Majority(Up)
 Elect(n) ==
-    /\ alive[n] /\ role[n] = "candidate" /\ have[n] = Len(log) /\ Majority(Up)
-    \* deposing a leader that is fine needs a newer term than its followers have seen: bounded like the spurious timeouts
-    /\ IF cur # None /\ alive[cur] /\ role[cur] = "leader"
-          THEN spurious < MaxSpurious /\ spurious' = spurious + 1
-          ELSE spurious' = spurious
+    /\ CanWin(n) /\ ~ (cur # None /\ LeaderFine(cur))
+    /\ role' = [role EXCEPT ![n] = "leader"]
+    /\ leaderOf' = [leaderOf EXCEPT ![n] = n]
+    /\ cur' = n
+    /\ UNCHANGED <<log, have, applied, alive, req, ans, crashes, spurious>>
+\* deposing a leader that is fine needs a newer term than its followers have seen: bounded like the spurious timeouts
+Depose(n) ==
+    /\ CanWin(n) /\ cur # None /\ LeaderFine(cur)
+    /\ spurious < MaxSpurious /\ spurious' = spurious + 1
     /\ role' = [role EXCEPT ![n] = "leader"]
     /\ leaderOf' = [leaderOf EXCEPT ![n] = n]
     /\ cur' = n
@@ -225,13 +240,17 @@ Restart(n) ==
     /\ UNCHANGED <<log, have, cur, req, ans, crashes, spurious>>
 
 (* ------------------------------------------------------------------ the API *)
+Ids == 1..(MaxLog + 1)
+
 \* a client sends a request for id to node n; var (POST only): "dup" repeats the ClientMessageId the session
 \* used last, "quit" is a QUIT line, "new" any other line
 ClientSend(rt, id, n, var) ==
+    /\ Quiet
     /\ req = NoReq /\ alive[n]
     /\ req' = [route |-> rt, id |-> id, at |-> n, origin |-> n, hops |-> 0, var |-> var]
-    /\ ans' = ans
-    /\ UNCHANGED <<log, applied, net>>
+    /\ UNCHANGED <<log, applied, net, ans>>
+CreateRequest(n) == ClientSend("create", 0, n, "new")
+SessionRequest(n, rt, id, var) == (var # "new" => rt = "post") /\ ClientSend(rt, id, n, var)
 
 \* the answer with everything the property predicates need, taken at the moment of the answer
 Answer(n, code, effect, lk) ==
@@ -246,73 +265,86 @@ Reply(n, code, lk) ==
     /\ req' = NoReq
     /\ UNCHANGED <<log, applied, net>>
 
-\* the node the request is at handles it
-Handle ==
-    /\ req # NoReq
-    /\ LET n  == req.at
-           lk == IF req.route = "create" THEN "found" ELSE Lookup(log, applied[n], req.id)
-           d  == Decide(req.route, role[n], leaderOf[n] # None, lk, req.var = "dup", FixedLeaderLag)
-       IN
-       IF ~ alive[n] THEN
-            \* connection refused: 502 from the proxying node, nothing at all for a direct request
-            /\ ans' = [Answer(req.origin, IF req.hops > 0 THEN 502 ELSE 0, FALSE, "none") EXCEPT !.roleBy = "none"]
-            /\ req' = NoReq
-            /\ UNCHANGED <<log, applied, net>>
-       ELSE CASE d = "404"    -> Reply(n, 404, lk)
-              [] d = "500"    -> Reply(n, 500, lk)
-              [] d = "canned" -> Reply(n, 200, lk)
-              [] d = "stream" -> Reply(n, 200, lk)
-              [] d = "proxy"  ->
-                    IF req.hops >= MaxHops THEN Reply(n, 500, lk)
-                    ELSE /\ req' = [req EXCEPT !.at = leaderOf[n], !.hops = @ + 1]
-                         /\ UNCHANGED <<log, applied, net, ans>>
-              [] d = "apply"  ->
-                    \* applyMessageWait: raft.Apply, wait for the commit and for the own FSM
-                    IF n = cur /\ Majority({n} \cup AckersOf(n)) /\ Len(log) < MaxLog THEN
-                         /\ applied[n] = Len(log)        \* otherwise the future is not ready yet: the request waits
-                         /\ LET e == CASE req.route = "create" -> [k |-> "create", s |-> 0]
-                                       [] req.route = "delete" -> [k |-> "delete", s |-> req.id]
-                                       [] OTHER                -> [k |-> IF req.var = "quit" THEN "quit" ELSE "line", s |-> req.id]
-                                acks == AckersOf(n)
-                            IN /\ log' = Append(log, e)
-                               /\ have' = [m \in Nodes |-> IF m = n \/ m \in acks THEN have[m] + 1 ELSE have[m]]
-                               /\ applied' = [applied EXCEPT ![n] = @ + 1]
-                               /\ ans' = Answer(n, 200, TRUE, lk)
-                               /\ req' = NoReq
-                               /\ UNCHANGED <<alive, role, leaderOf, cur, crashes, spurious>>
-                    ELSE Reply(n, 500, lk)               \* "Apply(): leadership lost / timed out"; nothing committed
+\* the node the request is at, what it finds and what it decides
+Pending == Quiet /\ req # NoReq
+HN  == req.at
+HLk == IF req.route = "create" THEN "found" ELSE Lookup(log, applied[HN], req.id)
+HD  == Decide(req.route, role[HN], leaderOf[HN] # None, HLk, req.var = "dup", FixedLeaderLag)
+Serving == Pending /\ alive[HN]
 
-Ids == 1..(MaxLog + 1)
+\* connection refused: 502 from the proxying node, nothing at all for a direct request
+Unreachable ==
+    /\ Pending /\ ~ alive[HN]
+    /\ ans' = [Answer(req.origin, IF req.hops > 0 THEN 502 ELSE 0, FALSE, "none") EXCEPT !.roleBy = "none"]
+    /\ req' = NoReq
+    /\ UNCHANGED <<log, applied, net>>
+Answer404    == Serving /\ HD = "404"    /\ Reply(HN, 404, HLk)
+Answer500    == Serving /\ HD = "500"    /\ Reply(HN, 500, HLk)
+AnswerCanned == Serving /\ HD = "canned" /\ Reply(HN, 200, HLk)
+AnswerStream == Serving /\ HD = "stream" /\ Reply(HN, 200, HLk)
+\* maybeProxyToLeader: the request moves to the node this one believes to be the leader
+Proxy ==
+    /\ Serving /\ HD = "proxy" /\ req.hops < MaxHops
+    /\ req' = [req EXCEPT !.at = leaderOf[HN], !.hops = @ + 1]
+    /\ UNCHANGED <<log, applied, net, ans>>
+ProxyGivesUp == Serving /\ HD = "proxy" /\ req.hops >= MaxHops /\ Reply(HN, 500, HLk)
+\* applyMessageWait: raft.Apply, wait for the commit and for the own FSM
+CanCommit(n) == n = cur /\ Majority({n} \cup AckersOf(n)) /\ Len(log) < MaxLog
+LeaderApplies ==
+    /\ Serving /\ HD = "apply" /\ CanCommit(HN)
+    /\ applied[HN] = Len(log)        \* otherwise the future is not ready yet: the request waits for Apply(HN)
+    /\ LET n == HN
+           e == CASE req.route = "create" -> [k |-> "create", s |-> 0]
+                  [] req.route = "delete" -> [k |-> "delete", s |-> req.id]
+                  [] OTHER                -> [k |-> IF req.var = "quit" THEN "quit" ELSE "line", s |-> req.id]
+           acks == AckersOf(n)
+       IN /\ log' = Append(log, e)
+          /\ have' = [m \in Nodes |-> IF m = n \/ m \in acks THEN have[m] + 1 ELSE have[m]]
+          /\ applied' = [applied EXCEPT ![n] = @ + 1]
+          /\ ans' = Answer(n, 200, TRUE, HLk)
+          /\ req' = NoReq
+          /\ UNCHANGED <<alive, role, leaderOf, cur, crashes, spurious>>
+\* "Apply(): leadership lost / timed out"; nothing committed
+LeaderApplyFails == Serving /\ HD = "apply" /\ ~ CanCommit(HN) /\ Reply(HN, 500, HLk)
 
-NextQuiet ==
-    \/ \E n \in Nodes : Replicate(n) \/ Apply(n) \/ LoseLeader(n) \/ BecomeCandidate(n) \/ Elect(n)
-                        \/ LearnLeader(n) \/ StepDown(n) \/ Crash(n) \/ Restart(n)
-    \/ \E n \in Nodes : ClientSend("create", 0, n, "new")
-    \/ \E n \in Nodes, id \in Ids, rt \in {"post", "delete", "get"}, var \in {"new", "dup", "quit"} :
-          (var # "new" => rt = "post") /\ ClientSend(rt, id, n, var)
-    \/ Handle
+Handle == Unreachable \/ Answer404 \/ Answer500 \/ AnswerCanned \/ AnswerStream \/ Proxy \/ ProxyGivesUp
+          \/ LeaderApplies \/ LeaderApplyFails
 
-\* the client has read the answer (keeps an answer from being carried through every later interleaving)
 Consume ==
     /\ ans # NoAns
     /\ ans' = NoAns
     /\ UNCHANGED <<log, applied, net, req>>
 
+ReplicateStep    == Quiet /\ \E n \in Nodes : Replicate(n)
+ApplyStep        == Quiet /\ \E n \in Nodes : Apply(n)
+LoseStaleStep    == Quiet /\ \E n \in Nodes : LoseStaleLeader(n)
+LoseSpuriousStep == Quiet /\ \E n \in Nodes : LoseLeaderSpuriously(n)
+CandidateStep    == Quiet /\ \E n \in Nodes : BecomeCandidate(n)
+ElectStep        == Quiet /\ \E n \in Nodes : Elect(n)
+DeposeStep       == Quiet /\ \E n \in Nodes : Depose(n)
+LearnStep        == Quiet /\ \E n \in Nodes : LearnLeader(n)
+StepDownStep     == Quiet /\ \E n \in Nodes : StepDown(n)
+CrashStep        == Quiet /\ \E n \in Nodes : Crash(n)
+RestartStep      == Quiet /\ \E n \in Nodes : Restart(n)
+CreateStep       == \E n \in Nodes : CreateRequest(n)
+AskStep          == \E n \in Nodes, id \in Ids, rt \in {"post", "delete", "get"}, var \in {"new", "dup", "quit"} : SessionRequest(n, rt, id, var)
+
 Next ==
     \/ Consume
-    \/ ans = NoAns /\ NextQuiet
+    \/ ReplicateStep \/ ApplyStep \/ LoseStaleStep \/ LoseSpuriousStep \/ CandidateStep \/ ElectStep \/ DeposeStep
+    \/ LearnStep \/ StepDownStep \/ CrashStep \/ RestartStep
+    \/ CreateStep \/ AskStep
+    \/ Unreachable \/ Answer404 \/ Answer500 \/ AnswerCanned \/ AnswerStream \/ Proxy \/ ProxyGivesUp
+    \/ LeaderApplies \/ LeaderApplyFails
 
 Spec == Init /\ [][Next]_vars
 
 \* liveness: everything except faults, client requests and spurious timeouts is weakly fair
-StaleLeader(n) == alive[n] /\ role[n] = "follower" /\ leaderOf[n] # None
-                  /\ ~ (alive[leaderOf[n]] /\ role[leaderOf[n]] = "leader" /\ leaderOf[n] = cur)
 FairSpec ==
     /\ Spec
     /\ \A n \in Nodes :
          /\ WF_vars(Replicate(n)) /\ WF_vars(Apply(n)) /\ WF_vars(BecomeCandidate(n)) /\ WF_vars(Elect(n))
-         /\ WF_vars(LearnLeader(n)) /\ WF_vars(StepDown(n)) /\ WF_vars(Restart(n))
-         /\ WF_vars(StaleLeader(n) /\ LoseLeader(n))
+         /\ WF_vars(LearnLeader(n)) /\ WF_vars(StepDown(n)) /\ WF_vars(Restart(n)) /\ WF_vars(LoseStaleLeader(n))
     /\ WF_vars(Handle) /\ WF_vars(Consume)
 
 (* ------------------------------------------------------------------ properties *)
